@@ -327,7 +327,12 @@ def c18_validator_shape(ctx: Ctx):
             return None
         if isinstance(e, (ast.List, ast.Tuple, ast.Set)):
             return list(e.elts)
-        if isinstance(e, ast.ListComp) and len(e.generators) == 1 and isinstance(e.elt, ast.Name) \
+        if isinstance(e, ast.Call) and dotted(e.func) in ('tuple', 'list', 'frozenset', 'set') and len(e.args) == 1 and not e.keywords:
+            return elements(e.args[0], at, depth + 1)
+        if isinstance(e, ast.Name) and rd.single_def(at, e.id) in (None, g.entry) and e.id in v.module.consts \
+                and not ctx.P._is_local_name(e.id, v):
+            return elements(v.module.consts[e.id], at, depth + 1)      # a module-level constant
+        if isinstance(e, (ast.ListComp, ast.GeneratorExp)) and len(e.generators) == 1 and isinstance(e.elt, ast.Name) \
                 and isinstance(e.generators[0].target, ast.Name) and e.elt.id == e.generators[0].target.id:
             gen = e.generators[0]
             okf = all(isinstance(c, ast.Compare) and isinstance(c.left, ast.Name) and c.left.id == e.elt.id and len(c.ops) == 1
@@ -410,6 +415,33 @@ def c18_validator_shape(ctx: Ctx):
                 yield ctx.ob('C18.VALIDATOR-SHAPE', okn, v, n, 'every listed character found in the key raises',
                              '' if okn else 'the first-match search does not cover every listed character, or a match does not raise')
                 for el in it.elts:
+                    t = src(el)
+                    for k in required:
+                        if t == k or (k.startswith("'") and isinstance(el, ast.Constant) and repr(el.value) == k):
+                            required[k] = True
+    if not found_loop:
+        # third form: `found = [c for c in <list> if c in key]` followed by a raise whenever found is non-empty
+        for n in walk_local(v.node):
+            if isinstance(n, ast.Assign) and isinstance(n.targets[0], ast.Name) and isinstance(n.value, ast.ListComp) and len(n.value.generators) == 1:
+                lc = n.value
+                gen = lc.generators[0]
+                if not (isinstance(gen.target, ast.Name) and isinstance(lc.elt, ast.Name) and lc.elt.id == gen.target.id):
+                    continue
+                els = elements(gen.iter, g.primary(n))
+                if els is None:
+                    continue
+                cv = gen.target.id
+                from ..engine import formula_of
+                from ..formula import f_and
+                have_c = f_and(*[fb.build(i) for i in gen.ifs]) if gen.ifs else TRUE
+                ok_c = any(equivalent(have_c, formula_of(ctx, v, t.format(c=cv, k=kparam)))
+                           for t in ('{c} in {k}', '({c} is not None) and ({c} in {k})'))
+                found = n.targets[0].id
+                exit_ok = any(implies(facts.formula_at(g.exit, fb), formula_of(ctx, v, t.format(f=found))) for t in ('not {f}', 'len({f}) == 0'))
+                found_loop = True
+                yield ctx.ob('C18.VALIDATOR-SHAPE', ok_c and exit_ok, v, n, 'every listed character found in the key raises',
+                             '' if ok_c and exit_ok else 'the filter does not select exactly the listed characters that occur in the key, or a match does not raise')
+                for el in els:
                     t = src(el)
                     for k in required:
                         if t == k or (k.startswith("'") and isinstance(el, ast.Constant) and repr(el.value) == k):
